@@ -368,18 +368,23 @@ def make_case(rng, cid, T, depth, fmt, dtag, run="serial", pleaf=None, stale_p=0
             "has_data": bool(has_data), "has_finite": has_finite, "negzero": negzero, "rewrite": rewrite, "shape": shape, "peaks": peaks}
 
 
-def tla_case(c):
+def tla_leafmap(leaves):
     def mat(m):
         return "<<" + ", ".join("<<" + ", ".join(tla.lit(px) for px in row) + ">>" for row in m) + ">>"
-    if c["leaves"]:
-        leaves = "(" + " @@ ".join("%s :> %s" % (tla.lit(l), mat(m)) for l, m in sorted(c["leaves"].items())) + ")"
-    else:
-        leaves = "[x \\in {} |-> <<>>]"
+    if leaves:
+        return "(" + " @@ ".join("%s :> %s" % (tla.lit(l), mat(m)) for l, m in sorted(leaves.items())) + ")"
+    return "[x \\in {} |-> <<>>]"
+
+
+def tla_case(c):
     bottomup = c["fmt"] == "fits"
+    hist = ""
+    if "first" in c:        # CascadeHistory.tla: the two batches of leaf data
+        hist = ", first |-> %s, final |-> %s" % (tla_leafmap(c["first"]), tla_leafmap(c["final"]))
     return ("[id |-> %d, mode |-> %s, bottomup |-> %s, ranged |-> %s, keepu |-> %s, leaves |-> %s, live |-> %s, "
-            "stale |-> %s, sv |-> %s]" % (c["id"], tla.lit(c["mode"]), tla.lit(bottomup), tla.lit(bottomup),
-                                          tla.lit(c["keepu"]), leaves, tla.lit(set(c["live"])),
-                                          tla.lit(set(c["stale"])), tla.lit(c["sv"])))
+            "stale |-> %s, sv |-> %s%s]" % (c["id"], tla.lit(c["mode"]), tla.lit(bottomup), tla.lit(bottomup),
+                                            tla.lit(c["keepu"]), tla_leafmap(c["leaves"]), tla.lit(set(c["live"])),
+                                            tla.lit(set(c["stale"])), tla.lit(c["sv"]), hist))
 
 
 INVARIANTS = ["CaseOK", "DoneRight", "RestUntouched", "ExistenceRule", "ExistsIffDataBelow", "ExistsOnlyAboveData", "VanishedOnlyByReduction",
@@ -678,18 +683,24 @@ def _decimating_merger(big):
     return big[::2, ::2]
 
 
-def _run_cascade(pio, base, meta, rec, run, spelled=None, explicit=True):
-    """Run one flavour of the real cascade.  Returns extra observations (builder runs)."""
+def _par_of(run):
+    """Worker count of a run tag: ...par2 / par3 / par4, ...parNone = left to the library (all CPUs), else 1."""
+    import re
+    m = re.search(r"par(None|\d+)$", run)
+    if not m:
+        return 1
+    return None if m.group(1) == "None" else int(m.group(1))
+
+
+def _run_cascade(pio, base, meta, rec, run, spelled=None, explicit=True, start=None):
+    """Run one flavour of the real cascade (from level `start`, default the leaf level).  Returns extra observations (builder runs)."""
     from toasty.merge import cascade_images, averaging_merger
-    depth = meta["depth"]
-    par = 1
-    for tag, n in (("par2", 2), ("par3", 3)):
-        if run.endswith(tag):
-            par = n
+    depth = meta["depth"] if start is None else start
+    par = _par_of(run)
     obs = {}
     if run.startswith("cli"):
         from toasty import cli
-        cli.entrypoint(["cascade", "--parallelism", str(par)] + (["--format", meta["fmt"]] if explicit else [])
+        cli.entrypoint(["cascade"] + (["--parallelism", str(par)] if par is not None else []) + (["--format", meta["fmt"]] if explicit else [])
                        + ["--start", str(depth), spelled or base])
     elif run.startswith("filter"):
         live = set(tuple(p) for p in rec["live"])
@@ -716,6 +727,8 @@ def _run_cascade(pio, base, meta, rec, run, spelled=None, explicit=True):
 def replay_case(job):
     """-> (findings, stats).  finding = (property, severity, key, message); severity V / D / M."""
     meta, rec = job
+    if meta.get("history"):
+        return replay_history(job)
     if meta.get("compare"):
         # the real run has already happened (workflow cases): only compare its observations with TLC's record
         import importlib
@@ -734,6 +747,10 @@ def replay_case(job):
     fmt, depth, T, mode, run = meta["fmt"], meta["depth"], meta["T"], meta["mode"], meta["run"]
     fam = "%s-%s" % (fmt, meta["dtag"])
     runkind = "parallel" if run.endswith(("par2", "par3")) else "serial"
+    if meta.get("start_method"):
+        # the process creates workers by spawn / forkserver (the default outside Linux, and of Python >= 3.14): whatever route
+        # the library takes there, for every worker count the result is the one pyramid TLC expects
+        runkind = "nofork"
 
     def add(prop, sev, key, msg):
         out.append((prop, sev, key, "%s [case %s: %s depth %d T %d run %s]" % (msg, meta["id"], fam, depth, T, run)))
@@ -1526,13 +1543,362 @@ def lossy_compare(ctx, runs, parents, expected):
                            "fully_through_tlc": len([1 for _o, _p, _k, w in parents if not w])})
 
 
+# ------------------------------------------------------------------------------------------------
+# histories over one pyramid directory (spec/CascadeHistory.tla): staged cascades, leaf data that grows between cascades,
+# one Builder used for several cascades, a Builder restored from index_rel.wtml
+# ------------------------------------------------------------------------------------------------
+
+HIST_INVARIANTS = ["HistCase", "DoneRight", "ExistenceRule", "NeverStoredUndefined", "RangeRule", "LeafRangeRule", "NoRangeUnlessRanged",
+                   "BuilderRule", "IndexRule"]
+
+
+def make_history_case(rng, cid, T, depth, fmt, dtag, run="serial", second=True):
+    """A case of CascadeHistory.tla: `final` = what the leaf files hold in the end, `first` = the first batch - fewer leaves,
+    some of them in a narrower version (without their extreme pixels; PyramidIO.update_image paints those in later)."""
+    mode = CONFIGS[(fmt, dtag)]
+    c = make_case(rng, cid, T, depth, fmt, dtag, run=run, pleaf=0.7, stale_p=0.0, keepu=False,
+                  shape="peaks" if mode in ("Float", "Int") else "history-plain", rewrite_p=0.0)
+    c["warn_env"], c["dirname"], c["spelling"], c["fmt_route"], c["negzero"] = "quiet", "tiles", "abs", "explicit", False
+    final = dict((l, m) for l, m in c["leaves"].items() if not _is_allu(m, mode))
+    if len(final) < 2:
+        for l in level(depth)[:3]:
+            final.setdefault(l, _leaf_matrix(rng, T, mode, dtag, [4 ** depth, 255, 200], "full"))
+    first = dict(final)
+    if second:
+        order = sorted(final)
+        late = set(rng.sample(order, max(1, len(order) // 3)))
+        if c["peaks"] and rng.random() < 0.5:
+            late.add(order[-1])                      # the leaf holding the overall maximum arrives with the second batch
+        if len(late) == len(order):
+            late.discard(order[0])
+        for l in late:
+            del first[l]
+        for l in sorted(first):
+            pk = c["peaks"].get(l)
+            if pk and (l == order[-1] or rng.random() < 0.6):
+                # the first version lacks the leaf's extreme pixels (undefined; integer data: 0, the update keeps the larger value)
+                m = [list(row) for row in first[l]]
+                for r, col in pk:
+                    m[r][col] = () if mode == "Float" else (0,)
+                first[l] = tuple(tuple(row) for row in m)
+    c["leaves"], c["first"], c["final"] = final, first, final
+    c["live"] = set(level(depth))
+    c["has_data"], c["history"] = True, True
+    return c
+
+
+def hist_cfg_text(T, depth, maxops):
+    lines = ["SPECIFICATION HSpec", "CONSTANTS", " T = %d" % T, " Depth = %d" % depth, " Cases <- MCCases", " Window = 1", " MaxOps = %d" % maxops]
+    lines += ["INVARIANT %s" % i for i in HIST_INVARIANTS]
+    lines += ["INVARIANT EmitCase", "INVARIANT EmitHistory", "CHECK_DEADLOCK FALSE"]
+    return "\n".join(lines) + "\n"
+
+
+def run_tlc_history(ctx, name, T, depth, cases, maxops, timeout=3600, workers=3):
+    """Model-check the histories of the cases; -> (TLC result, {"C": per-case records, "H": per-state histories})."""
+    text = tla.module(name, ["MCCascadeHistory"], [("MCCases", "{" + ",\n ".join(tla_case(c) for c in cases) + "}")])
+    r = ctx.tlc(name, extra={name + ".tla": text}, cfg_text=hist_cfg_text(T, depth, maxops), timeout=timeout, workers=workers)
+    return r, {"C": r.json_lines("C"), "H": r.json_lines("H")}
+
+
+def _step_label(st):
+    return {"cascade": "c", "write": "w", "index": "i", "builder": "b"}[st["op"]] + st["how"][:1] + (str(st["k"]) if st["op"] == "cascade" else "")
+
+
+def select_histories(hists, limit):
+    """The maximal histories (no other history extends them), or - with a limit - a greedy cover: histories are taken, longest
+    first, as long as they show a pair of steps (in order, not necessarily adjacent) or three consecutive steps not seen yet."""
+    labelled = sorted(set(tuple(_step_label(st) for st in h) for h in hists), key=lambda q: (-len(q), q))
+    by_label = dict((tuple(_step_label(st) for st in h), h) for h in hists)
+    maximal = [q for q in labelled if not any(o != q and o[:len(q)] == q for o in labelled)]
+    if limit is None or len(maximal) <= limit:
+        return [by_label[q] for q in maximal]
+
+    def features(q):
+        f = set((q[i], q[j]) for i in range(len(q)) for j in range(i + 1, len(q)))
+        f |= set(q[i:i + 3] for i in range(len(q) - 2))
+        return f
+    seen, picked, rest = set(), [], list(maximal)
+    while rest and len(picked) < limit:
+        best = max(rest, key=lambda q: (len(features(q) - seen), len(q), tuple(-ord(ch) for ch in " ".join(q))))
+        if not features(best) - seen:
+            break
+        picked.append(best)
+        seen |= features(best)
+        rest.remove(best)
+    return [by_label[q] for q in picked]
+
+
+def history_jobs(ctx, task, cases, recs):
+    by_id = dict((c["id"], c) for c in cases)
+    crec = dict((r["id"], r) for r in recs["C"])
+    if set(crec) != set(by_id):
+        ctx.machinery("TLC emitted case records for %s, the cases are %s" % (sorted(crec), sorted(by_id)))
+        return []
+    jobs, total = [], 0
+    for cid in sorted(by_id):
+        c, cr = by_id[cid], crec[cid]
+        hs = [r["hist"] for r in recs["H"] if r["id"] == cid]
+        chosen = select_histories(hs, task.get("replay_limit"))
+        total += len(hs)
+        for n, h in enumerate(chosen):
+            meta = dict((k, v) for k, v in c.items() if k not in ("leaves", "first", "final"))
+            meta["scratch"] = ctx.scratch
+            meta["id"] = "%s.h%d" % (cid, n)
+            meta["label"] = " ".join(_step_label(st) for st in h)
+            last = h[-1]["batch"]
+            rec = {"id": cid, "hist": h, "given1": cr["given1"], "given2": cr["given2"], "init": cr["init"], "fin1": cr["fin1"], "fin2": cr["fin2"],
+                   "connected1": cr["connected1"], "connected2": cr["connected2"], "ranged": cr["ranged"], "keepu": cr["keepu"],
+                   "given": cr["given%d" % last], "final": cr["fin%d" % last]}
+            jobs.append((meta, rec))
+    ctx.notes["histories"] = {"explored_by_tlc": ctx.notes.get("histories", {}).get("explored_by_tlc", 0) + total,
+                              "replayed": ctx.notes.get("histories", {}).get("replayed", 0) + len(jobs)}
+    return jobs
+
+
+def _restore_builder(bld, base):
+    """What FitsTiler does when it reuses a directory: the Builder's imageset is the one recorded in index_rel.wtml."""
+    from wwt_data_formats.folder import Folder
+    from wwt_data_formats.imageset import ImageSet
+    from wwt_data_formats.place import Place
+    for item in Folder.from_file(os.path.join(base, "index_rel.wtml")).children:
+        if isinstance(item, Place) and item.foreground_image_set is not None:
+            bld.place = item
+            bld.imgset = item.foreground_image_set
+            return True
+        if isinstance(item, ImageSet):
+            bld.imgset = item
+            bld.place.foreground_image_set = item
+            return True
+    return False
+
+
+def replay_history(job):
+    """One TLC history through the real code, judged after every step.  -> (findings, stats) like replay_case."""
+    meta, rec = job
+    repo.setup()
+    import numpy as np
+    import warnings
+    import xml.etree.ElementTree as ET
+    warnings.resetwarnings()
+    warnings.simplefilter("ignore")
+    out = []
+    fmt, depth, T, mode = meta["fmt"], meta["depth"], meta["T"], meta["mode"]
+    fam = "%s-%s" % (fmt, meta["dtag"])
+    ntiles = [0]
+
+    def add(prop, sev, key, msg):
+        out.append((prop, sev, key, "%s [case %s: %s depth %d T %d history: %s]" % (msg, meta["id"], fam, depth, T, meta["label"])))
+
+    def f32(pair):
+        return (np.float32(pair[0] * meta["scale"]), np.float32(pair[1] * meta["scale"]))
+
+    leafvals = [abs(ch[0]) for g in rec["given2"] for row in g["px"] for px in row for ch in px]
+    maxabs = (max(leafvals) if leafvals else 1) * meta["scale"]
+    root = tempfile.mkdtemp(prefix="c02h-", dir=meta["scratch"])
+    base = os.path.join(root, "tiles")
+    os.makedirs(base)
+
+    def judge(st, i, what):
+        """The levels that are current after this step (and the leaves) against TLC's directory for the batch on disk."""
+        exp = dict((tuple(t["pos"]), t) for t in rec["fin%d" % st["batch"]])
+        levels = set(st["current"]) | set([depth])
+        found, _other = scan_tiles(base, fmt)
+        want = set(p for p in exp if p[0] in levels)
+        got = set(p for p in found if p[0] in levels)
+        may = set(p for p in want if exp[p].get("may"))
+        if (want - may) - got or got - want:
+            add("C02", "V", "tile-set:history", "after step %d (%s): tiles missing %s, unexpected %s" % (i + 1, what, sorted((want - may) - got), sorted(got - want)))
+        for p in sorted(want & got):
+            arr, hdr = load_raw(found[p], fmt)
+            ntiles[0] += 1
+            res = compare_tile(arr, exp[p]["px"], meta, depth - p[0], maxabs)
+            if res is not None:
+                add("C02", "V", "%s:history" % res[0], "after step %d (%s): tile %s: %s" % (i + 1, what, p, res[1]))
+                break
+        if fmt == "fits" and rec["ranged"] and rec["connected%d" % st["batch"]]:
+            for p in sorted(want & got):
+                rng_ = exp[p]["rng"]
+                _arr, hdr = load_raw(found[p], fmt)
+                if not rng_:
+                    if hdr:
+                        add("C14", "V", "tile-range:history", "after step %d (%s): tile %s records %s although no finite value lies beneath it" % (i + 1, what, p, hdr))
+                        break
+                    continue
+                got_r = (np.float32(hdr.get("DATAMIN", np.nan)), np.float32(hdr.get("DATAMAX", np.nan)))
+                if got_r != f32(rng_):
+                    add("C14", "V", "tile-range:history", "after step %d (%s): tile %s records DATAMIN/DATAMAX = %s, the leaves beneath it range over %s"
+                        % (i + 1, what, p, got_r, f32(rng_)))
+                    break
+
+    old = signal.signal(signal.SIGALRM, _alarm)
+    signal.alarm(180)
+    try:
+        from toasty import cli
+        from toasty.builder import Builder
+        from toasty.image import Image
+        from toasty.merge import averaging_merger, cascade_images
+        from toasty.pyramid import PyramidIO, Pos
+        pio = _populate(base, meta, {"given": rec["given1"], "init": rec["init"]})
+        bld = Builder(pio)
+        g1 = dict((tuple(g["pos"]), g) for g in rec["given1"])
+        par_last = _par_of(meta["run"])
+        for i, st in enumerate(rec["hist"]):
+            last = i == len(rec["hist"]) - 1
+            if st["op"] == "write":
+                # the second batch: new leaves are written, leaves that are there already are updated in place
+                for g in rec["given2"]:
+                    pos = tuple(g["pos"])
+                    arr = concrete_tile(g["px"], meta, 0)
+                    if pos not in g1:
+                        pio.write_image(Pos(*pos), Image.from_array(arr))
+                    elif g["px"] != g1[pos]["px"]:
+                        img = Image.from_array(arr)
+                        with pio.update_image(Pos(*pos), masked_mode=img.mode, default="masked") as basis:
+                            img.update_into_maskable_buffer(basis, slice(None), slice(None), slice(None), slice(None))
+                judge(st, i, "second batch of leaf data written")
+            elif st["op"] == "builder":
+                pio = PyramidIO(base, default_format=fmt)
+                bld = Builder(pio)
+                if st["how"] == "restored" and not _restore_builder(bld, base):
+                    add("C14", "D", "restore", "index_rel.wtml holds no imageset to restore the Builder from")
+            elif st["op"] == "index":
+                bld.write_index_rel_wtml()
+                sets = [(float(e.get("DataMin", "0")), float(e.get("DataMax", "0"))) for e in ET.parse(os.path.join(base, "index_rel.wtml")).getroot().iter("ImageSet")]
+                if len(sets) != 1:
+                    add("C14", "D", "wtml-shape", "index_rel.wtml holds %d ImageSet elements" % len(sets))
+                elif fmt == "fits" and rec["connected%d" % st["batch"]] and st["idx"]:
+                    gotw = tuple(np.float32(v) for v in sets[0])
+                    if gotw != f32(st["idx"]):
+                        add("C14", "V", "wtml-range:history", "after step %d: index_rel.wtml has DataMin/DataMax = %s, the leaf tiles now in the directory range "
+                            "over %s" % (i + 1, gotw, f32(st["idx"])))
+            else:
+                k = st["k"]
+                par = par_last if last else 1
+                what = "%s cascade from level %d" % ("Builder" if st["how"] == "builder" else "API / CLI", k)
+                try:
+                    if st["how"] == "builder":
+                        bld.imgset.tile_levels = k
+                        bld.cascade(parallel=par)
+                    elif i % 2 == 0:
+                        cascade_images(pio, k, averaging_merger, parallel=par)
+                    else:
+                        cli.entrypoint(["cascade", "--parallelism", str(par), "--format", fmt, "--start", str(k), base])
+                except _Timeout:
+                    raise
+                except BaseException as e:  # noqa
+                    add("C02", "V", "raised:history", "step %d (%s) raised %r" % (i + 1, what, e))
+                    if st["how"] == "builder":
+                        add("C14", "V", "builder-raised:history", "step %d (%s) raised %r" % (i + 1, what, e))
+                    break
+                judge(st, i, what)
+                if st["how"] == "builder" and fmt == "fits" and rec["connected%d" % st["batch"]]:
+                    got = tuple(np.float32(v) for v in (bld.imgset.data_min, bld.imgset.data_max))
+                    if got != f32(st["bld"]):
+                        add("C14", "V", "imageset-range:history", "after step %d (%s): the Builder's imageset has data_min/data_max = %s, the leaf tiles now in "
+                            "the directory range over %s" % (i + 1, what, got, f32(st["bld"])))
+        return out, {"tiles": ntiles[0]}
+    except _Timeout:
+        add("C02", "M", "timeout", "the history did not finish within 180 s")
+        return out, {"tiles": 0}
+    finally:
+        signal.alarm(0)
+        signal.signal(signal.SIGALRM, old)
+        os.chdir(meta["scratch"])
+        shutil.rmtree(root, ignore_errors=True)
+
+
+def history_tasks(ctx, prop, configs, depths=(2,)):
+    """TLC tasks of kind `history`: (format, dtype, run of the last cascade, second batch?) per configuration."""
+    tasks = []
+    cid = 6000
+    for depth in depths:
+        cases = []
+        for fmt, dtag, run, second in configs:
+            cid += 1
+            cases.append(make_history_case(ctx.rng, cid, 4 if depth <= 2 else 8, depth, fmt, dtag, run=run, second=second))
+        tasks.append({"name": "MC%shist%d" % (prop, depth), "kind": "history", "T": 4 if depth <= 2 else 8, "depth": depth, "cases": cases,
+                      "chunk": 2 if depth <= 2 else 1, "maxops": 4 * depth + 2, "replay_limit": 10 if ctx.quick else None})
+    return tasks
+
+
+# ------------------------------------------------------------------------------------------------
+# the multiprocessing START METHOD as a configuration dimension
+# ------------------------------------------------------------------------------------------------
+
+NOFORK_METHODS = ["spawn", "forkserver"]
+NOFORK_PARALLEL = [None, 2, 4]
+NOFORK_UNITS = ("d2c0", "d3sc0")       # the TLC units whose records are also run without fork (deterministic choice)
+
+
+def nofork_select(js, limit=6):
+    """Cases to run again in a process whose start method is not fork: several parents in flight, every format at most twice."""
+    picked, seen = [], {}
+    for meta, rec in js:
+        if meta.get("compare") or rec.get("refused") or meta["run"] not in ("serial", "cli", "filter"):
+            continue
+        nparents = len([t for t in rec["final"] if t["pos"][0] == meta["depth"] - 1 and not t.get("may")])
+        if nparents < 3 or seen.get((meta["fmt"], meta["mode"]), 0) >= 2 or meta["fmt"] == "jpg":
+            continue
+        seen[(meta["fmt"], meta["mode"])] = seen.get((meta["fmt"], meta["mode"]), 0) + 1
+        picked.append((meta, rec))
+        if len(picked) >= limit:
+            break
+    out = []
+    for i, (meta, rec) in enumerate(picked):
+        for k, par in enumerate(NOFORK_PARALLEL):
+            m = dict(meta)
+            m["start_method"] = NOFORK_METHODS[(i + k) % len(NOFORK_METHODS)]
+            m["run"] = "%s%spar%s" % (meta["run"] if meta["run"] != "serial" else "", "-" if meta["run"] != "serial" else "", par)
+            m["id"] = "%s/%s-par%s" % (meta["id"], m["start_method"], par)
+            m["rewrite"] = False
+            out.append((m, rec))
+    return out
+
+
+def nofork_child(path):
+    """Runs in a FRESH interpreter (the start method is process-global): replay the pickled jobs with the start method set."""
+    import multiprocessing as mp
+    import pickle
+    with open(path, "rb") as f:
+        jobs = pickle.load(f)
+    out = []
+    for job in jobs:
+        mp.set_start_method(job[0]["start_method"], force=True)
+        out.append(replay_case(job))
+    with open(path + ".out", "wb") as f:
+        pickle.dump(out, f)
+
+
+def nofork_batch(jobs):
+    """Pool worker: hand the jobs to a fresh interpreter and fetch its findings."""
+    import pickle
+    import subprocess
+    if not jobs:
+        return []
+    fd, path = tempfile.mkstemp(prefix="c02-nofork-", suffix=".pkl", dir=jobs[0][0]["scratch"])
+    with os.fdopen(fd, "wb") as f:
+        pickle.dump(jobs, f)
+    root = os.path.dirname(os.path.dirname(os.path.abspath(__file__)))
+    try:
+        p = subprocess.run([sys.executable, "-c", "import sys; from checks import c02; c02.nofork_child(sys.argv[1])", path], cwd=root,
+                           stdout=subprocess.DEVNULL, stderr=subprocess.PIPE, timeout=600, text=True, errors="replace")
+        if p.returncode != 0 or not os.path.exists(path + ".out"):
+            return [([("C02", "M", "nofork-child", "the interpreter running the no-fork cases failed (exit %s): %s" % (p.returncode, p.stderr[-400:]))], {"tiles": 0})] \
+                + [([], {"tiles": 0}) for _ in jobs[1:]]
+        with open(path + ".out", "rb") as f:
+            return pickle.load(f)
+    except subprocess.TimeoutExpired:
+        return [([("C02", "M", "nofork-child", "the interpreter running the no-fork cases did not finish within 600 s")], {"tiles": 0})] + [([], {"tiles": 0}) for _ in jobs[1:]]
+
+
 def _warm():
     import time
     time.sleep(0.3)
     return os.getpid()
 
 
-def run_pipeline(ctx, tasks, enum_jobs, chunk=45, concurrent=6, workers=8, extra=None):
+def run_pipeline(ctx, tasks, enum_jobs, chunk=45, concurrent=6, workers=8, extra=None, nofork_units=()):
     """Model-check the tasks with several TLC processes side by side (TLC generates initial states sequentially and
     one case = one initial state, so the families are cut into chunks) and push every chunk's emitted records through
     the real code as soon as TLC has finished with it.  -> (jobs, results) in a deterministic order."""
@@ -1558,6 +1924,8 @@ def run_pipeline(ctx, tasks, enum_jobs, chunk=45, concurrent=6, workers=8, extra
     def one(u):
         ti, cases, name = u
         t = tasks[ti]
+        if t.get("kind") == "history":
+            return run_tlc_history(ctx, name, t["T"], t["depth"], cases, t["maxops"], workers=max(2, 16 // concurrent))
         return run_tlc_cases(ctx, name, t["T"], t["depth"], cases=cases, cases_expr=t.get("expr"), timeout=3600,
                              workers=max(2, 16 // concurrent), window=windows.get(name, t.get("window")))
     t0 = time.time()
@@ -1565,7 +1933,7 @@ def run_pipeline(ctx, tasks, enum_jobs, chunk=45, concurrent=6, workers=8, extra
     pool = cf.ProcessPoolExecutor(max_workers=workers, mp_context=mp.get_context("fork"), initializer=_quiet_worker)
     try:
         pids = set(f.result() for f in [pool.submit(_warm) for _ in range(workers)])
-        submitted = []
+        submitted, nofork = [], []
         per_task = dict((ti, {"recs": 0, "states": 0}) for ti in range(len(tasks)))
         with cf.ThreadPoolExecutor(max_workers=concurrent) as tex:
             extra_futs = [tex.submit(fn) for fn in (extra or [])]
@@ -1574,20 +1942,27 @@ def run_pipeline(ctx, tasks, enum_jobs, chunk=45, concurrent=6, workers=8, extra
                 ti, cases, name = futs[f]
                 r, recs = f.result()
                 t = tasks[ti]
-                per_task[ti]["recs"] += len(recs)
+                per_task[ti]["recs"] += len(recs["H"]) if t.get("kind") == "history" else len(recs)
                 per_task[ti]["states"] += r.distinct
-                if cases is None:
+                if t.get("kind") == "history":
+                    js = history_jobs(ctx, t, cases, recs)
+                elif cases is None:
                     js = enum_jobs(t, recs)
                 else:
                     check_terminal_unique(ctx, recs, name)
                     js = jobs_for(ctx, cases, recs)
                 # long (parallel) runs first
                 js.sort(key=lambda j: 0 if j[0]["run"].endswith(("par2", "par3")) else 1)
+                if name.endswith(tuple(nofork_units)) and nofork_units:
+                    batch = nofork_select(js)
+                    nofork.append((ti, name + "-nofork", batch, pool.submit(nofork_batch, batch)))
                 for j in js:
                     submitted.append((ti, name, j, pool.submit(replay_case, j)))
             extra_results = [f.result() for f in extra_futs]
         t_tlc = time.time() - t0
         out = [(ti, name, j, fut.result()) for ti, name, j, fut in submitted]
+        for ti, name, batch, fut in nofork:
+            out += [(ti, name, j, res) for j, res in zip(batch, fut.result())]
     finally:
         pool.shutdown(wait=True, cancel_futures=True)
     out.sort(key=lambda o: (o[0], o[1], str(o[2][0]["id"])))
@@ -1616,6 +1991,11 @@ def run(ctx):
               "family": "each of the 4 leaves absent or one of %s" % ("3 matrices, both row orders" if quick else "all 16 matrices over {U,1} bottom-up (17^4 populations) + 3 matrices top-down")}]
     # ---- harness-enumerated inputs, all modes / formats / run flavours
     tasks += plan_binding(ctx, "C02", QUICK_PLAN, PARALLEL_PLAN_QUICK)
+    # ---- histories over one directory (CascadeHistory.tla): staged cascades (cascade(D); cascade(k < D)), leaf data growing between
+    # cascades; every current tile must be the display-sentence tile of the leaves now on disk
+    tasks += history_tasks(ctx, "C02", [("npy", "f4", "serial", True), ("png", "rgba", "par2", True)] +
+                           ([] if quick else [("fits", "i2", "serial", True), ("npy", "u1", "par2", False), ("fits", "f8", "par2", True)]),
+                           depths=(2,) if quick else (2, 3))
     def enum_jobs(t, recs):
         step = 3 if quick else 6
         return [(enum_meta(rec, i, ctx.scratch), rec) for i, rec in enumerate(recs) if i % step == 0]
@@ -1631,7 +2011,8 @@ def run(ctx):
         lossy_runs = [f.result() for f in lossy_futs]
     lossy_parents, lossy_in = lossy_observe(ctx, lossy_runs, full_all=not quick)
     tasks += deep_tasks
-    jobs, results, extra = run_pipeline(ctx, tasks, enum_jobs, extra=[lambda: lossy_tlc(ctx, lossy_in), lambda: deep_tlc(ctx, deep_in)])
+    jobs, results, extra = run_pipeline(ctx, tasks, enum_jobs, extra=[lambda: lossy_tlc(ctx, lossy_in), lambda: deep_tlc(ctx, deep_in)],
+                                        nofork_units=NOFORK_UNITS)
     lossy_compare(ctx, lossy_runs, lossy_parents, extra[0])
     deep_compare(ctx, deep_wants, extra[1])
     ctx.exhaustive = False
